@@ -222,7 +222,9 @@ func sliceInvariants(ns xsel.NodeSet, loc *xmodel.Loc, wantAscending bool) error
 func refsOfCursors(ns xsel.NodeSet, loc *xmodel.Loc) []string {
 	out := make([]string, len(ns))
 	for i, c := range ns {
-		if m, ok := loc.ToNode[c]; ok {
+		if c == nil {
+			out[i] = "<nil>"
+		} else if m, ok := loc.ToNode[c]; ok {
 			out[i] = m.Ref()
 		} else {
 			out[i] = "?" + xmodel.DescribeCursor(c)
